@@ -197,7 +197,7 @@ func (g *Gen) ifStmt() ast.Vertex {
 		g.feat("alt-syntax")
 		n.ColonTkn = g.ch(':')
 		n.Stmt = g.altList()
-		k := g.rng(0, 2, "elseifs")
+		k := g.count(0, 2, "elseifs")
 		for i := 0; i < k; i++ {
 			e := &ast.StmtElseIf{ElseIfTkn: g.kw(token.T_ELSEIF, "elseif"), ColonTkn: g.ch(':')}
 			e.OpenParenthesisTkn, e.Cond, e.CloseParenthesisTkn = g.parenExpr()
@@ -227,7 +227,7 @@ func (g *Gen) ifStmt() ast.Vertex {
 		return n
 	}
 	n.Stmt = g.ctlBody()
-	k := g.rng(0, 2, "elseifs")
+	k := g.count(0, 2, "elseifs")
 	hasElse := g.flip("else")
 	for i := 0; i < k; i++ {
 		e := &ast.StmtElseIf{ElseIfTkn: g.kw(token.T_ELSEIF, "elseif")}
@@ -278,7 +278,7 @@ func (g *Gen) ifStmtPlain() ast.Vertex {
 }
 
 func (g *Gen) exprList(min, max int) ([]ast.Vertex, []*token.Token) {
-	n := g.rng(min, max, "nexprs")
+	n := g.count(min, max, "nexprs")
 	var xs []ast.Vertex
 	var seps []*token.Token
 	for i := 0; i < n; i++ {
@@ -431,7 +431,7 @@ func (g *Gen) stmt(top, decl bool) ast.Vertex {
 	case 17:
 		g.feat("stmt:global")
 		n := &ast.StmtGlobal{GlobalTkn: g.kw(token.T_GLOBAL, "global")}
-		k := g.rng(1, 3, "nglobals")
+		k := g.count(1, 3, "nglobals")
 		for i := 0; i < k; i++ {
 			switch g.intn(5, "globalvar") {
 			case 0:
@@ -450,7 +450,7 @@ func (g *Gen) stmt(top, decl bool) ast.Vertex {
 	case 18:
 		g.feat("stmt:static")
 		n := &ast.StmtStatic{StaticTkn: g.kw(token.T_STATIC, "static")}
-		k := g.rng(1, 3, "nstatics")
+		k := g.count(1, 3, "nstatics")
 		for i := 0; i < k; i++ {
 			v := &ast.StmtStaticVar{Var: g.simpleVar()}
 			if g.flip("init") {
@@ -466,7 +466,7 @@ func (g *Gen) stmt(top, decl bool) ast.Vertex {
 	case 19:
 		g.feat("stmt:unset")
 		n := &ast.StmtUnset{UnsetTkn: g.kw(token.T_UNSET, "unset"), OpenParenthesisTkn: g.ch('('), CloseParenthesisTkn: g.ch(')')}
-		k := g.rng(1, 3, "nunset")
+		k := g.count(1, 3, "nunset")
 		for i := 0; i < k; i++ {
 			n.Vars = append(n.Vars, g.Variable(2, true))
 			if i < k-1 {
@@ -552,7 +552,7 @@ func (g *Gen) switchStmt() ast.Vertex {
 		n.CaseSeparatorTkn = g.ch(';')
 		g.feat("switch-leading-semicolon")
 	}
-	k := g.rng(0, 3, "ncases")
+	k := g.count(0, 3, "ncases")
 	g.inLoop++
 	for i := 0; i < k; i++ {
 		sep := g.ch(':')
@@ -577,7 +577,7 @@ func (g *Gen) switchStmt() ast.Vertex {
 func (g *Gen) tryStmt() ast.Vertex {
 	n := &ast.StmtTry{TryTkn: g.kw(token.T_TRY, "try")}
 	n.OpenCurlyBracketTkn, n.Stmts, n.CloseCurlyBracketTkn = g.bracedBody()
-	k := g.rng(0, 2, "ncatch")
+	k := g.count(0, 2, "ncatch")
 	fin := g.flip("finally")
 	if k == 0 && !fin {
 		k = 1
@@ -586,7 +586,7 @@ func (g *Gen) tryStmt() ast.Vertex {
 		c := &ast.StmtCatch{CatchTkn: g.kw(token.T_CATCH, "catch"), OpenParenthesisTkn: g.ch('('), Var: g.simpleVar(), CloseParenthesisTkn: g.ch(')')}
 		nt := 1
 		if g.O.PHP7 && !g.O.Common && g.chance(1, 3, "multicatch") {
-			nt = g.rng(2, 3, "ntypes")
+			nt = g.count(2, 3, "ntypes")
 			g.feat("multi-catch")
 		}
 		for j := 0; j < nt; j++ {
@@ -608,7 +608,7 @@ func (g *Gen) tryStmt() ast.Vertex {
 
 func (g *Gen) declareStmt() ast.Vertex {
 	n := &ast.StmtDeclare{DeclareTkn: g.kw(token.T_DECLARE, "declare"), OpenParenthesisTkn: g.ch('('), CloseParenthesisTkn: g.ch(')')}
-	k := g.rng(1, 2, "ndeclare")
+	k := g.count(1, 2, "ndeclare")
 	for i := 0; i < k; i++ {
 		n.Consts = append(n.Consts, &ast.StmtConstant{Name: g.Ident(g.pick("directive", "ticks", "strict_types", "encoding")), EqualTkn: g.ch('='), Expr: g.SmallInt()})
 		if i < k-1 {
@@ -631,7 +631,7 @@ func (g *Gen) declareStmt() ast.Vertex {
 
 func (g *Gen) constList() ast.Vertex {
 	n := &ast.StmtConstList{ConstTkn: g.kw(token.T_CONST, "const")}
-	k := g.rng(1, 2, "nconst")
+	k := g.count(1, 2, "nconst")
 	for i := 0; i < k; i++ {
 		n.Consts = append(n.Consts, &ast.StmtConstant{Name: g.Ident(g.plainName()), EqualTkn: g.ch('='), Expr: g.ConstExpr()})
 		if i < k-1 {
@@ -671,7 +671,7 @@ func (g *Gen) Type(ret bool) ast.Vertex {
 
 // Params draws a parameter list.
 func (g *Gen) Params() ([]ast.Vertex, []*token.Token) {
-	n := g.rng(0, 3, "nparams")
+	n := g.count(0, 3, "nparams")
 	var ps []ast.Vertex
 	var seps []*token.Token
 	for i := 0; i < n; i++ {
@@ -739,7 +739,7 @@ func (g *Gen) closure() ast.Vertex {
 	if g.chance(1, 2, "use") {
 		g.feat("closure-use")
 		n.UseTkn, n.UseOpenParenthesisTkn, n.UseCloseParenthesisTkn = g.kw(token.T_USE, "use"), g.ch('('), g.ch(')')
-		k := g.rng(1, 3, "nuses")
+		k := g.count(1, 3, "nuses")
 		for i := 0; i < k; i++ {
 			u := &ast.ExprClosureUse{Var: g.simpleVar()}
 			if g.chance(1, 3, "useref") {
@@ -786,7 +786,7 @@ func (g *Gen) visibility() ast.Vertex {
 }
 
 func (g *Gen) nameList(min, max int) ([]ast.Vertex, []*token.Token) {
-	n := g.rng(min, max, "nnames")
+	n := g.count(min, max, "nnames")
 	var xs []ast.Vertex
 	var seps []*token.Token
 	for i := 0; i < n; i++ {
@@ -881,7 +881,7 @@ func (g *Gen) members(allowAbstract, iface bool) []ast.Vertex {
 				p.Type = g.Type(false)
 				g.feat("typed-property")
 			}
-			kk := g.rng(1, 2, "nprops")
+			kk := g.count(1, 2, "nprops")
 			for j := 0; j < kk; j++ {
 				sp := &ast.StmtProperty{Var: g.simpleVar()}
 				if g.flip("propinit") {
@@ -904,7 +904,7 @@ func (g *Gen) members(allowAbstract, iface bool) []ast.Vertex {
 				c.Modifiers = []ast.Vertex{g.visibility()}
 				g.feat("const-visibility")
 			}
-			kk := g.rng(1, 2, "nconsts")
+			kk := g.count(1, 2, "nconsts")
 			for j := 0; j < kk; j++ {
 				c.Consts = append(c.Consts, &ast.StmtConstant{Name: g.declMemberName(), EqualTkn: g.ch('='), Expr: g.ConstExpr()})
 				if j < kk-1 {
@@ -979,7 +979,7 @@ func (g *Gen) traitUse() ast.Vertex {
 	if g.chance(1, 2, "adaptations") {
 		g.feat("trait-adaptations")
 		n.OpenCurlyBracketTkn, n.CloseCurlyBracketTkn = g.ch('{'), g.ch('}')
-		k := g.rng(0, 3, "nadapt")
+		k := g.count(0, 3, "nadapt")
 		for i := 0; i < k; i++ {
 			if g.chance(1, 3, "precedence") {
 				p := &ast.StmtTraitUsePrecedence{Trait: g.Name(), DoubleColonTkn: g.tok(token.T_PAAMAYIM_NEKUDOTAYIM, "::"), Method: g.declMemberName(), InsteadofTkn: g.kw(token.T_INSTEADOF, "insteadof"), SemiColonTkn: g.ch(';')}
@@ -1045,7 +1045,7 @@ func (g *Gen) useStmt() ast.Vertex {
 		if g.chance(1, 4, "leadingsep") {
 			n.LeadingNsSeparatorTkn = g.tok(token.T_NS_SEPARATOR, "\\")
 		}
-		k := g.rng(1, 3, "nuses")
+		k := g.count(1, 3, "nuses")
 		for i := 0; i < k; i++ {
 			n.Uses = append(n.Uses, g.useDecl(kind == nil, false))
 			if i < k-1 {
@@ -1060,7 +1060,7 @@ func (g *Gen) useStmt() ast.Vertex {
 	}
 	g.feat("use")
 	n := &ast.StmtUseList{UseTkn: g.kw(token.T_USE, "use"), Type: kind, SemiColonTkn: g.semi()}
-	k := g.rng(1, 3, "nuses")
+	k := g.count(1, 3, "nuses")
 	for i := 0; i < k; i++ {
 		n.Uses = append(n.Uses, g.useDecl(false, true))
 		if i < k-1 {
